@@ -67,4 +67,9 @@ def check(run, model, tier):
                 for c, how, ok2, why in info.results:
                     run.inst('WRAP.once', info.inner, 'wrapper of next_rtc returns its result', bool(ok2), why or 'result %s' % how, node=c, obligation=True)
     run.floor('wrappers on post_fifo/post_lifo/next_rtc', n, 5)
+    run.rule('LAYER.queue-writers', 'only post_fifo/post_lifo, next_rtc, stop() (wake-up item) and the LockingDeque itself operate on the pending-event queue')
+    queues.check_queue_writers(run, model, 'LAYER.queue-writers')
+    run.rule('ENDS.queue-class', 'the pending and deferral queues are collections.deque objects (or subclasses that redefine none of deque\'s interface)')
+    from sa.context import callgraph as _cgq
+    queues.check_queue_classes(run, model, _cgq(model), 'ENDS.queue-class')
     run.assume('collections.deque semantics for append/appendleft/pop/popleft')
